@@ -155,6 +155,35 @@ class MayThrow:
         if an['k'] == 'CXXMemberCallExpr' and self._idx.get(an['callee']['usr']) == cont and f.call_obj(an) is not None:
             if R.render(f.call_obj(an)) == obj:
                 return True
+        # the position handed back by a file-local find-or-create helper H(obj, name): every return is the by-name index of
+        # the same container of its first argument, or its last position (size - 1) right after an append
+        if an['k'] == 'CallExpr' and an.get('callee', {}).get('inrepo'):
+            hf = self.prog.funcs.get(an['callee']['usr'])
+            args = f.call_args(an)
+            if hf is not None and hf.body is not None and (hf.rec.get('internal') or '(anonymous namespace)' in hf.qname) and args:
+                import re as _re
+                if _re.sub(r'^\*\((.*)\)$', r'\1', R.render(args[0])) == obj:
+                    Rh = Renderer(hf)
+                    good = True
+                    nret = 0
+                    for r_ in hf.all_nodes({'ReturnStmt'}):
+                        if not r_.get('ch'):
+                            continue
+                        nret += 1
+                        rn = hf.nodes[hf.strip(r_['ch'][0], 'all')]
+                        rr = Rh.render(r_['ch'][0])
+                        if rn['k'] == 'CXXMemberCallExpr' and self._idx.get(rn['callee']['usr']) == cont and hf.call_obj(rn) is not None and Rh.render(hf.call_obj(rn)) == 'arg0':
+                            continue
+                        if rr in ('(arg0.%s.size - 1)' % cont, '(arg0.nbGroups() - 1)', '(arg0.nbParameters() - 1)'):
+                            # an append to that container comes before on every path to this return
+                            g_ = hf.events()
+                            rv = g_.vertex_of.get(hf.strip(r_['ch'][0], 'all')) or g_.vertex_of.get(r_['id'])
+                            apps = [g_.vertex_of.get(c_['id']) for c_ in hf.calls() if c_['callee'].get('inrepo') and not c_['callee'].get('const') and hf.call_obj(c_) is not None and Rh.render(hf.call_obj(c_)) == 'arg0']
+                            if rv is not None and any(a_ is not None and g_.dominates(a_, rv) for a_ in apps):
+                                continue
+                        good = False
+                    if good and nret:
+                        return True
         return False
 
     def _only_idx_defs(self, f, vid, obj, cont):
